@@ -147,20 +147,30 @@ impl Analyzer
 		identifier: Identifier,
 	) -> Result<Identifier, Error>
 	{
-		self.declare_variable(identifier)
-			.map_err(|error| match error
-			{
-				Error::DuplicateDeclarationVariable {
-					name,
-					location,
-					previous,
-				} => Error::DuplicateDeclarationMember {
-					name,
-					location,
-					previous,
-				},
-				error => error,
-			})
+		// A member can only clash with another member of the same structure.
+		let scope = self.variable_stack.last_mut().unwrap();
+		let previous = scope
+			.iter()
+			.find(|x| x.name == identifier.name)
+			.map(|x| x.location.clone());
+
+		let identifier = Identifier {
+			resolution_id: self.resolution_id,
+			is_authoritative: true,
+			..identifier
+		};
+		self.resolution_id += 1;
+		scope.push(identifier.clone());
+
+		match previous
+		{
+			Some(previous) => Err(Error::DuplicateDeclarationMember {
+				name: identifier.name,
+				location: identifier.location,
+				previous,
+			}),
+			None => Ok(identifier),
+		}
 	}
 
 	fn declare_variable(
